@@ -392,3 +392,10 @@ def c09_extend_items_midway(rec, params):
 def c01_fresh_writeable(rec, params):
     case = rec.get('case') or {}
     return rec.get('clause') == 'writeable_array_reachable' and case.get('attr') in params.get('attrs', [])
+
+
+@classifier
+def c02_tuple_leaf_iloc(rec, params):
+    '''level_add on an index whose labels are tuples: iteration / values / lookup keep the tuple as one leaf label, iloc[i] flattens it'''
+    cs = rec.get('case') or {}
+    return rec.get('clause') == 'iloc_elements' and cs.get('route') == 'level_add' and bool(cs.get('src')) and all(l[0] == 't' for l in cs['src'])
